@@ -14,5 +14,5 @@ Extraction "model.ml"
   m_sign_attached_stream m_sign_detached m_verify_stream m_verify_all m_verify_detached m_mp_read m_mp_encode
   m_seal_stream m_open_stream m_signcrypt_seal_stream m_signcrypt_open_stream
   m_armor62_seal m_dearmor m_check_armor62 m_make_frame m_binary_slice m_armored_prefix m_header_marker m_footer_marker
-  m_pr_run m_pr_init m_pr_until m_cr_run m_armor_stream m_bxe_session m_bxd_trace
+  m_pr_run m_pr_init m_pr_until m_cr_run m_armor_stream m_bxe_session m_bxd_trace m_ad_trace
   m_open_events m_sc_open_events m_sign_attached_events m_sign_detached_events.
